@@ -419,10 +419,11 @@ impl<'a> Compiler<'a> {
                 .find(|(import, _)| *import == function)
             {
                 let (super_depth, suffix) = super_depth(alias);
+                let depth = self.namespace_depth_above(super_depth)?;
                 let name = self
                     .current_namespace
                     .iter()
-                    .take(self.current_namespace.len() - super_depth)
+                    .take(depth)
                     .flat_map(|x| [x.as_ref(), "."])
                     .chain(std::iter::once(suffix.unwrap_or(alias)))
                     .collect::<String>();
@@ -440,11 +441,12 @@ impl<'a> Compiler<'a> {
                 {
                     // namespace.alias.suffix
                     let (super_depth, s) = super_depth(alias);
+                    let depth = self.namespace_depth_above(super_depth)?;
 
                     let name = self
                         .current_namespace
                         .iter()
-                        .take(self.current_namespace.len() - super_depth)
+                        .take(depth)
                         .flat_map(|x| [x.as_ref(), "."])
                         .chain([alias, ".", s.unwrap_or(suffix)].iter().copied())
                         .collect::<String>();
@@ -459,6 +461,14 @@ impl<'a> Compiler<'a> {
                 msg: None,
             })
         })
+    }
+
+    /// Number of namespace components left after going up `super_depth` levels
+    fn namespace_depth_above(&self, super_depth: usize) -> CompilationResult<usize> {
+        self.current_namespace
+            .len()
+            .checked_sub(super_depth)
+            .ok_or_else(|| self.error(CompilationErrorPayload::SuperLimitReached))
     }
 
     fn push_str(&mut self, data: &str) {
